@@ -3,7 +3,7 @@
 Each row names a function, a target (assignment / struct field / let / return value / constant)
 and the pattern the value must have.  Rows are grouped by property."""
 import hirutil as H
-from hp import (Pat, canon, unique_inits, PARAM_TY, RET, INDEX, BREAK, ASSIGNOP as _ASSIGNOP, CALLARG, CLAMP, Ctx, ANY, K, L, F, M, C, BIN, UN, CAST, TRY, P, VIA, OR, IF, CONTAINS, find, assignments,
+from hp import (Pat, OPT_OR, canon, unique_inits, PARAM_TY, RET, INDEX, BREAK, ASSIGNOP as _ASSIGNOP, CALLARG, CLAMP, Ctx, ANY, K, L, F, M, C, BIN, UN, CAST, TRY, P, VIA, OR, IF, CONTAINS, find, assignments,
                 struct_field_inits, strip)
 from facts import callee_of, op_local
 from common import loc_of
@@ -695,7 +695,8 @@ def _version_line_table(ctx, hfn):
 
 _version_line_table.positive = True
 row('C05', TVL, 'version-line-decisions', _version_line_table)
-row('C05', TVL, 'number-after-last-v', _contains(M('rsplit', L('line'), K('v')), 'the version number is what follows the last `v`'))
+row('C05', TVL, 'number-after-last-v', _contains(OR(M('rsplit', L('line'), K('v')), M('rsplit_once', L('line'), K('v')), M('rsplitn', L('line'), ANY(), K('v'))),
+              'the version number is what follows the last `v`'))
 row('C05', 'decode::DecodeBeatmap::decode', 'default-version',
     _contains(M('unwrap_or', ANY(), K(14)), 'a missing/unreadable version means the latest version'))
 row('C05', 'decode::parse_first_section', 'failed-version-line-may-open-a-section',
@@ -848,7 +849,7 @@ row('C12', TIMING, 'clamp:scroll_speed',
 row('C12', TIMING, 'speed_multiplier',
     _let('speed_multiplier', IF(BIN('Lt', L('beat_len'), K(0.0)), BIN('Div', K(100.0), UN('Neg', L('beat_len'))), K(1.0))))
 row('C12', TIMING, 'timing_change-default',
-    _let('timing_change', M('map_or', ANY(), K(True), ANY())))
+    _let('timing_change', OPT_OR(ANY(), K(True))))
 for ty in ('timing::TimingPoint', 'difficulty::DifficultyPoint', 'sample::SamplePoint', 'effect::EffectPoint'):
     def no_literal(ctx, hfn, ty=ty):
         hits = []
@@ -883,10 +884,12 @@ row('C14', HITOBJ, 'length>=0',
     _let('new_len', M('max', TRY(M('parse_with_limits', ANY(), K(131072))), K(0.0))))
 row('C14', HITOBJ, 'length-epsilon',
     _contains(BIN('Ge', M('abs', L('new_len')), K(2.220446049250313e-16)), 'zero length means natural length'))
+_RAW_REPEATS = OR(L('repeat_count'), TRY(M('parse_num', ANY())))        # the parsed count, whatever the local is called
 row('C14', HITOBJ, 'repeat-cap',
-    _contains(IF(BIN('Gt', L('repeat_count'), K(9000)), ANY()), 'repeat counts above 9000 are rejected'))
+    _contains(IF(BIN('Gt', _RAW_REPEATS, K(9000)), ANY()), 'repeat counts above 9000 are rejected'))
 row('C14', HITOBJ, 'repeat_count-1',
-    _contains(C('cmp::max', K(0), BIN('Sub', L('repeat_count'), K(1))), 'repeat_count = max(0, n - 1)'))
+    _contains(OR(C('cmp::max', K(0), BIN('Sub', _RAW_REPEATS, K(1))), M('max', BIN('Sub', _RAW_REPEATS, K(1)), K(0))),
+              'repeat_count = max(0, n - 1)'))
 row('C14', HITOBJ, 'nodes=repeats+2', _let('nodes', BIN('Add', CAST(L('repeat_count'), 'usize'), K(2))))
 def _filled(elem):
     # `vec![elem; nodes]` or the iterator spellings of the same vector
@@ -1037,20 +1040,244 @@ row('C14', '<section::hit_objects::hit_samples::HitSoundType as std::str::FromSt
     _contains(CAST(BIN('BitAnd', ANY(), K(255)), 'u8'), 'the hit-sound value keeps its low 8 bits (layering is judged on the whole byte)'))
 row('C14', HITOBJ, 'spinner-duration>=0',
     _let('duration', M('max', BIN('Sub', ANY(), L('start_time')), K(0.0)), every=False))
-row('C14', HITOBJ, 'hold-end>=start',
-    _all_assign([], M('max', L('start_time'), L('new_end_time')), base='end_time'))
+def _hold_end(ctx, hfn):
+    """a hold note never ends before it starts: in `HitObjectHold { duration: end - start_time }` every value `end` can
+    take (its `let`, later assignments, the arms of a `match`/`if` that computes it) is `start_time.max(..)`, and one of
+    them clamps the end time parsed from the line"""
+    import symeval as SE
+    inits = struct_field_inits(hfn, 'section::hit_objects::hold::HitObjectHold', 'duration')
+    if len(inits) != 1:
+        return False, '%d `HitObjectHold { duration: .. }` literals' % len(inits), None
+    e = strip(inits[0][0])
+    if isinstance(e, dict) and e.get('k') == 'local':
+        its = unique_inits(ctx, e['name'])
+        if len(its) == 1:
+            e = strip(its[0])
+    if not (isinstance(e, dict) and e.get('k') == 'binary' and e.get('op') == 'Sub'):
+        return False, 'the duration of a hold note is not `end - start`', inits[0][1]
+    end = strip(e['a'])
+    vals = []
+    if isinstance(end, dict) and end.get('k') == 'local':
+        nm = end['name']
+        # the variable of that name in scope at the literal: the innermost enclosing block that declares it
+        scope = hfn['body']
+        for a in reversed(inits[0][2]):
+            if isinstance(a, dict) and a.get('k') == 'block' and any(
+                    isinstance(st, dict) and st.get('k') in ('slet', 'let') and nm in H.pat_bindings(st.get('pat', {}))
+                    for st in a.get('stmts', [])):
+                scope = a
+                break
+
+        def v(n, anc):
+            if n.get('k') == 'assign' and strip(n['l']).get('k') == 'local' and strip(n['l'])['name'] == nm:
+                vals.append(n['r'])
+            if n.get('k') in ('slet', 'let') and 'init' in n and nm in H.pat_bindings(n.get('pat', {})):
+                vals.append(n['init'])
+        H.walk(scope, v)
+    else:
+        vals.append(end)
+    leaves_ = []
+    for x in vals:
+        try:
+            t = SE.SymEval(None, budget=3000).value(x, {})
+        except SE.Stop:
+            return False, 'the end time is too involved to evaluate', None
+        leaves_.extend(l for _p, l in SE.leaves(t))
+    if not leaves_:
+        return False, 'no value for the end of a hold note found', inits[0][1]
+    START = L('start_time')
+    clamp = lambda other: OR(M('max', START, other), M('max', other, START), C('max', START, other), C('max', other, START))
+    parsed = OR(L('new_end_time'), TRY(M('parse_num', ANY())))
+    for l in leaves_:
+        ctx.env = {}
+        if not clamp(ANY()).m(ctx, l):
+            return False, 'an end time of a hold note is not clamped to its start time (`start_time.max(..)`)', \
+                l.get('ln') if isinstance(l, dict) else None
+    ctx.env = {}
+    if not any(clamp(parsed).m(ctx, l) for l in leaves_):
+        return False, 'the end time read from the line is not the one that is clamped to the start time', inits[0][1]
+    return True, '', inits[0][1]
+
+
+row('C14', HITOBJ, 'hold-end>=start', _hold_end)
 row('C14', HITOBJ, 'hold-duration',
     _struct_init('section::hit_objects::hold::HitObjectHold', 'duration', BIN('Sub', L('end_time'), L('start_time'))))
 
 CONVP = 'section::hit_objects::decode::HitObjectsState::convert_points'
-row('C14', CONVP, 'split:repeated-point',
-    _contains(IF(BIN('Ne', F(ANY(), 'pos'), F(ANY(), 'pos')), ANY()), 'segments split only at a repeated point'))
-row('C14', CONVP, 'split:not-in-catmull',
-    _contains(IF(BIN('And', BIN('Eq', L('path_type'), P('PathType::CATMULL')), BIN('Gt', L('end_idx'), K(1))), ANY()),
-              'Catmull paths are not split (except at index 1)'))
-row('C14', CONVP, 'split:not-at-segment-end',
-    _contains(IF(BIN('Eq', L('end_idx'), BIN('Sub', BIN('Sub', M('len', ANY()), L('end_point_len')), K(1))), ANY()),
-              'no split at the end of a segment'))
+_SPLIT_SHAPE = {
+    'split:repeated-point':
+        _contains(IF(BIN('Ne', F(INDEX(ANY(), L('end_idx')), 'pos'), F(INDEX(ANY(), BIN('Sub', L('end_idx'), K(1))), 'pos'),
+                         commutative=True), ANY()), 'segments split only at a repeated point (a vertex equal to its predecessor)'),
+    'split:not-in-catmull':
+        _contains(IF(BIN('And', BIN('Eq', L('path_type'), P('PathType::CATMULL')), BIN('Gt', L('end_idx'), K(1))), ANY()),
+                  'Catmull paths are not split (except at index 1)'),
+    'split:not-at-segment-end':
+        _contains(IF(BIN('Eq', L('end_idx'), BIN('Sub', BIN('Sub', M('len', ANY()), L('end_point_len')), K(1))), ANY()),
+                  'no split at the end of a segment'),
+}
+
+
+def _split_decision_tree(ctx, hfn):
+    """the loop that cuts the vertices of a slider into sub-segments, as one decision: in an iteration the cut
+    (`curve_points.extend(&vertices[start..end])`) happens exactly when
+        vertices[i].pos == vertices[i - 1].pos  and not (path type is CATMULL and i > 1)  and  i != segment length - 1
+    whichever way the code spells it (three `continue` guards, one boolean, nested ifs).
+    Returns (True, ..) / (False, why, ln) / None when the loop or its tests cannot be interpreted."""
+    import symeval as SE
+    import itertools
+    loops = []
+
+    def is_cut_call(n):
+        if n.get('k') == 'mcall' and n.get('name') in ('extend', 'extend_from_slice'):
+            r = strip(n['recv'])
+            return isinstance(r, dict) and r.get('k') == 'field' and r.get('n') == 'curve_points'
+        return False
+
+    def v(n, anc):
+        if n.get('k') == 'loop':
+            hit = []
+            H.walk(n['body'], lambda m, a2: hit.append(m) if is_cut_call(m) and not any(x.get('k') == 'closure' for x in a2) else None)
+            if hit:
+                loops.append(n)
+    H.walk(hfn['body'], v)
+    if len(loops) != 1:
+        return None
+    lp = loops[0]
+    body = lp['body']
+    blk = None
+    if lp.get('src') == 'While' and isinstance(body.get('expr'), dict) and body['expr'].get('k') == 'if' and not body.get('stmts'):
+        blk = body['expr']['t']
+    elif lp.get('src') == 'ForLoop' and body.get('stmts') and body['stmts'][0].get('k') == 'match':
+        for a in body['stmts'][0]['arms']:
+            if 'Some' in repr(a['pat']):
+                blk = a['body']
+    else:
+        blk = body
+    if not (isinstance(blk, dict) and blk.get('k') == 'block'):
+        return None
+
+    class Ev(SE.CallTrace):
+        def stmt(self, st, env, knext, kret, as_tail=None):
+            if isinstance(st, dict) and st.get('k') in ('continue', 'break'):
+                return ('v', {'k': st['k'], 'calls': env.get('#calls', ())})
+            return super().stmt(st, env, knext, kret, as_tail)
+    ev = Ev({'extend', 'extend_from_slice'})
+    try:
+        tree = ev.seq(list(blk.get('stmts', [])), blk.get('expr'), {},
+                      lambda env, tail: ('v', {'k': 'end', 'calls': (ev._scan(tail, env) or env).get('#calls', ()) if tail is not None
+                                               else env.get('#calls', ())}),
+                      kret=lambda vt, env=None: ('v', {'k': 'ret', 'calls': (env or {}).get('#calls', ())}))
+    except SE.Stop:
+        return None
+    POS = F(ANY(), 'pos')
+    CAT = P('PathType::CATMULL')
+    END = BIN('Sub', BIN('Sub', M('len', ANY()), ANY()), K(1))
+    idx_seen = []
+
+    def atom(e):
+        e = strip(e)
+        if not (isinstance(e, dict) and e.get('k') == 'binary'):
+            return None
+        op = e.get('op')
+        if op in ('Eq', 'Ne') and POS.m(ctx, e['a']) and POS.m(ctx, e['b']):
+            ia, ib = strip(strip(e['a'])['e']), strip(strip(e['b'])['e'])
+            if not (isinstance(ia, dict) and isinstance(ib, dict) and ia.get('k') == 'index' and ib.get('k') == 'index'):
+                return None
+            xa, xb = ia.get('i', ia.get('idx')), ib.get('i', ib.get('idx'))
+            for hi_, lo_ in ((xa, xb), (xb, xa)):
+                if SAME_(BIN('Sub', SAME_(hi_), K(1))).m(ctx, lo_):
+                    idx_seen.append(hi_)
+                    return ('E', op == 'Eq')
+            return None
+        if op in ('Eq', 'Ne') and (CAT.m(ctx, e['a']) or CAT.m(ctx, e['b'])):
+            return ('C', op == 'Eq')
+        if op in ('Eq', 'Ne'):
+            for x, y in ((e['a'], e['b']), (e['b'], e['a'])):
+                if END.m(ctx, y):
+                    idx_seen.append(x)
+                    return ('L', op == 'Eq')
+                if BIN('Add', ANY(), K(1), commutative=True).m(ctx, x) and BIN('Sub', M('len', ANY()), ANY()).m(ctx, y):
+                    return ('L', op == 'Eq')
+        for op_, k_, pol, swap in (('Gt', 1, True, False), ('Ge', 2, True, False), ('Le', 1, False, False), ('Lt', 2, False, False),
+                                   ('Lt', 1, True, True), ('Le', 2, True, True), ('Ge', 1, False, True), ('Gt', 2, False, True)):
+            x, y = (e['b'], e['a']) if swap else (e['a'], e['b'])
+            if op == op_ and K(k_).m(ctx, y) and (strip(x).get('ty') if isinstance(strip(x), dict) else None) == 'usize':
+                idx_seen.append(x)
+                return ('G', pol)
+        return None
+
+    def beval(e, val):
+        e = strip(e)
+        if not isinstance(e, dict):
+            return None
+        if e.get('k') == 'binary' and e.get('op') in ('And', 'Or'):
+            a, b = beval(e['a'], val), beval(e['b'], val)
+            if e['op'] == 'And':
+                return False if (a is False or b is False) else (True if (a and b) else None)
+            return True if (a is True or b is True) else (False if (a is False and b is False) else None)
+        if e.get('k') == 'unary' and e.get('op') == 'Not':
+            a = beval(e['e'], val)
+            return None if a is None else (not a)
+        if e.get('k') == 'local':
+            inits = unique_inits(ctx, e['name'])
+            if len(inits) == 1 and strip(inits[0]) is not e:
+                return beval(inits[0], val)
+            return None
+        at = atom(e)
+        if at is None:
+            return None
+        return val[at[0]] == at[1]
+
+    for bits in itertools.product((True, False), repeat=4):
+        val = dict(zip('ECGL', bits))
+        t = tree
+        while t[0] == 'ite':
+            if t[1][0] != 'e':
+                return None
+            d = beval(t[1][1], val)
+            if d is None:
+                return None
+            t = t[2] if d else t[3]
+        leaf = t[1] if isinstance(t[1], dict) else {}
+        cut = any(is_cut_call(c[1]) for c in leaf.get('calls', ()))
+        want = val['E'] and not (val['C'] and val['G']) and not val['L']
+        if cut != want:
+            desc = ', '.join(w for w, on in (('repeated point', val['E']), ('Catmull', val['C']), ('index > 1', val['G']),
+                                            ('last index of the segment', val['L'])) if on) or 'none of the conditions'
+            return False, ('the vertices are %scut into a new sub-segment when [%s] holds; the format cuts exactly at a repeated point '
+                           'that is not inside a Catmull path (index > 1) and not the end of the segment'
+                           % ('' if cut else 'not ', desc)), lp.get('ln')
+    return True, '', lp.get('ln')
+
+
+class SAME_(Pat):
+    """structural equality with a given expression, or a wrapped pattern"""
+
+    def __init__(self, e):
+        self.p = e if isinstance(e, Pat) else None
+        self.c = None if self.p else canon(strip(e))
+
+    def m0(self, ctx, e):
+        if self.p is not None:
+            return self.p.m0(ctx, e) if not getattr(self.p, 'via_let', False) else self.p.m(ctx, e)
+        return canon(strip(e)) == self.c
+
+
+def _split_row(label):
+    def chk(ctx, hfn):
+        for dpt in (0, 1, 2):
+            vh = hfn if dpt == 0 else H.inlined_fn(ctx.facts, hfn, depth=dpt)
+            c2 = Ctx(ctx.facts, H.binding_inits(vh), vh) if dpt else ctx
+            r = _split_decision_tree(c2, vh)
+            if r is not None:
+                return r
+        # the decision cannot be read off: the earlier, spelling-bound form of the three facts
+        return _SPLIT_SHAPE[label](ctx, hfn)
+    return chk
+
+
+for _lbl in ('split:repeated-point', 'split:not-in-catmull', 'split:not-at-segment-end'):
+    row('C14', CONVP, _lbl, _split_row(_lbl))
 def _perfect_curve_table(ctx, hfn):
     """the path type stored on a segment's first vertex, as a decision table over (declared type is
     PERFECT_CURVE, the segment has exactly three vertices, they are collinear):
@@ -1293,9 +1520,9 @@ def _all_sample_lookups_lenient(ctx, hfn):
 _all_sample_lookups_lenient.positive = True
 row('C15', HO_FROM, 'leniency:nodes', _all_sample_lookups_lenient, keep=('sample_point_at',))
 row('C15', HO_FROM, 'default-beat-len',
-    _let('beat_len', M('map_or', M('timing_point_at', ANY(), F(L('h'), 'start_time')), K(1000.0), ANY())))
+    _let('beat_len', OPT_OR(M('timing_point_at', ANY(), F(L('h'), 'start_time')), K(1000.0))))
 row('C15', HO_FROM, 'default-slider-velocity',
-    _let('slider_velocity', M('map_or', M('difficulty_point_at', ANY(), F(L('h'), 'start_time')), K(1.0), ANY())))
+    _let('slider_velocity', OPT_OR(M('difficulty_point_at', ANY(), F(L('h'), 'start_time')), K(1.0))))
 row('C15', HO_FROM, 'stable-sort',
     _contains(M('sort_by', L('hit_objects'), ANY(), defsuffix='sort_by'), 'stable sort of the hit objects'))
 row('C15', HO_FROM, 'no-unstable-sort',
@@ -1317,7 +1544,19 @@ def _break_forces_combo(ctx, hfn):
     flags = set()
     applied = 0
 
-    for r_, mult, _n in H.new_combo_or_sites(ctx.facts, hfn):
+    sites = H.new_combo_or_sites(ctx.facts, hfn)
+    if sites and all(strip(r_).get('k') != 'local' for r_, _m, _n in sites):
+        # no boolean flag at all: the slice-cursor spelling (count of the leading passed breaks > 0)
+        from hp import slice_cursor_break_flag
+        res = [slice_cursor_break_flag(ctx, hfn, r_) for r_, _m, _n in sites]
+        if all(r is not None for r in res):
+            bad = [r for r in res if not r[0]]
+            if bad:
+                return False, bad[0][1], sites[0][2].get('ln')
+            if sum(m_ for _r, m_, _n in sites) < 3:
+                return False, 'the flag is not applied to circles, sliders and spinners', sites[0][2].get('ln')
+            return True, '', sites[0][2].get('ln')
+    for r_, mult, _n in sites:
         if strip(r_).get('k') == 'local':
             flags.add(strip(r_)['name'])
             applied += mult
@@ -1803,9 +2042,9 @@ row('C19', CLEN, 'fit:direction',
 row('C19', CLEN, 'fit:expected-length-recorded',
     _contains(M('push', L('cumulative_len'), L('expected_len')), 'the expected length becomes the last cumulative length'))
 row('C19', CLEN, 'fit:last-valid',
-    _let('last_valid', OR(M('map_or', M('position', M('rev', M('iter', L('cumulative_len'))), ANY()), K(0), ANY()),
-                          M('map_or', M('rposition', OR(M('iter', L('cumulative_len')), L('cumulative_len')), ANY()), K(0),
-                            CONTAINS(BIN('Add', ANY(), K(1), commutative=True))))))
+    _let('last_valid', OR(OPT_OR(M('position', M('rev', M('iter', L('cumulative_len'))), ANY()), K(0)),
+                          OPT_OR(M('rposition', OR(M('iter', L('cumulative_len')), L('cumulative_len')), ANY()), K(0),
+                                 CONTAINS(BIN('Add', ANY(), K(1), commutative=True))))))
 
 # ------------------------------------------------------------------------------ C20
 row('C20', None, 'const:MAX_LEN', _const(EVENT + "SliderEventsIter::<'ticks_buf>::MAX_LEN", 100000.0))
